@@ -6,159 +6,43 @@ import HexProofs.Manager2.HAFill
 /-
 C08, members WITH their own timeframe (`C08.members_FULL`).
 
-`Writes/Twin.lean` (`member_twin`) already keeps ANY member – own timeframe or not – in step with a standalone
-indicator over *the manager the member is attached to* (`twinManager`): for a member with a timeframe that is
-`Manager.init {cfg with tf} (the default manager's candles at construction time, handed over raw)`, and every
-later `Hexital.append` feeds every manager the caller's candles.  What was missing is the manager refinement
+Since the library's repair of `Hexital.__init__` (members with a timeframe of their own are built from
+`source_candles`, a deep copy of the candles AS GIVEN to the constructor – model: `Hexital.attachFrom (some init)`)
+the manager such a member is attached to at construction time IS the manager of the plain standalone indicator,
 
-    HandsOverRaw :  twinManager cfg htf atf secs init = Manager.init {cfg with tf := secs} init
+    twinManager cfg atf secs init = Manager.init {cfg with tf := secs} init        (`Writes/Twin.lean`, by definition)
 
-i.e. that this manager IS the manager of the plain standalone twin constructed from the caller's candles.
+whatever the Hexital-level timeframe / fill / Heikin-Ashi / lifespan did to the default manager's copy; and every later
+`Hexital.append` feeds every manager the caller's candles.  `member_twin` keeps ANY member in step with a standalone
+indicator over that manager, so nothing is left of the former refinement obligation `HandsOverRaw`.
 
-Proved here (every `F`):
-  * `HandsOverRaw` when
-      (a) the Hexital is constructed without candles – ANY Hexital-level timeframe / fill / Heikin-Ashi / lifespan
-          (`handsOverRaw_nil`);
-      (b) the Hexital has no timeframe of its own, the construction candles are pristine and its lifespan trims
-          none of them at construction time – Heikin-Ashi or not: `recover_clean_values` gives the raw candles
-          back (`handsOverRaw_rawDefault`, from `tasks_rawDefault`);
-      (c) the member's timeframe is the Hexital's own and the manager's tasks are idempotent on the construction
-          candles (`handsOverRaw_sameTf`); idempotence for timeframe alone, + Heikin-Ashi, + lifespan, + fill,
-          + fill + Heikin-Ashi (`tasks_idem_*`, from the manager refinement libraries).
-  * `member_standalone_tf`: `C08.member_standalone` for ANY member under `HandsOverRaw` – any program of
+Part A – the constructor path (every `F`):
+  * `member_standalone_tf`: `C08.member_standalone` for ANY member – own timeframe or not – under any program of
     `calculate / calculate_index / purge / recalculate / append / add_indicator / remove_indicator (of others)`.
-  * `members_partial` / `members_rawAtAttach` / `members_attachOK`: the statement of `members_FULL` word for
-    word, plus its presuppositions (no collision: `TreeOK`; well-formed `Member` records) and `HandsOverRaw` /
-    (a)–(b) / (a)–(c).
-  * `members_FULL_counterexample`: `members_FULL` AS STATED IS FALSE – a Hexital-level lifespan that trims at
-    construction time hands the member manager a truncated bucket (replayed on the library).
-Still open: a Hexital-level timeframe together with a DIFFERENT (coarser) member timeframe and non-empty
-construction candles (needs `resample t2 (resample t1 s) = resample t2 s`, which holds only up to the
-associativity of the volume sum – false for IEEE doubles, see the report); (c) with lifespan + fill /
-lifespan + Heikin-Ashi (no idempotence lemma in the manager libraries).
+  * `members_all` (and the slightly more general `members_all_key`): the statement of `C08.members_FULL` word for
+    word for EVERY member, every Hexital-level configuration (timeframe, fill, Heikin-Ashi, lifespan), any
+    construction candles and appended chunks, plus only its presuppositions: no collision / no input dependency
+    (`TreeOK N mem.tree`, the other members' names ⊆ `N`, as in `member_standalone`), members sharing a timeframe
+    NAME carry the same seconds (`hsecs`), and the member's timeframe name is not the literal manager key "default"
+    (`hkey`).  The former `members_partial` / `members_rawAtAttach` / `members_attachOK` carried the extra
+    hypothesis `HandsOverRaw` / `RawAtAttach` / `AttachOK`; they are subsumed (`members_attachOK` is kept as a
+    corollary to show that nothing was lost).
+  * the former `members_FULL_counterexample` (a Hexital-level lifespan that trims at construction time handed the
+    member manager a truncated bucket) NO LONGER HOLDS – the defect it formalised is repaired; its witness is kept as
+    a positive example (`TwinTfWitness`).
+Part B – the `add_indicator` path (`Hexital.attachFrom none`, unchanged in the library): a member manager created
+LATE is still built from the default manager's candles, handed over raw (`memberRaw`).  The refinement lemmas
+formerly used for the constructor are kept for that path: `HandsOverRaw` now speaks about `lateManager` (the manager
+`add_indicator` creates right after construction) and is proved when (a) the Hexital was constructed without candles
+(`handsOverRaw_nil`), (b) it has no timeframe of its own, pristine construction candles and a lifespan that trims none
+of them (`handsOverRaw_rawDefault`), (c) the member's timeframe is the Hexital's own and the manager's tasks are
+idempotent on the construction candles (`handsOverRaw_sameTf`, `tasks_idem_*`).  No theorem about late-added members
+with a timeframe is derived from them here (that is `C13.presence_FULL`, open).
 -/
 namespace Hex
 variable {F : Type} [PyF F] {N : List String}
 
-/-- a candle as the caller hands it over: never converted, no readings -/
-structure Candle.Pristine (c : Candle F) : Prop where
-  clean : c.clean = none
-  inds : c.inds = []
-  subs : c.subs = []
-  tag : c.tag = false
-
-/-- what `_validate_indicators` does to a copied candle before a new member manager collapses it -/
-def Candle.handOver (c : Candle F) : Candle F := ({ c.recoverClean with clean := none } : Candle F).reset
-
-omit [PyF F] in
-theorem Candle.handOver_pristine (c : Candle F) (h : c.Pristine) : c.handOver = c := by
-  obtain ⟨o, hh, l, cl, v, ts, inds, subs, tag, clean⟩ := c
-  obtain ⟨h1, h2, h3, h4⟩ := h
-  simp only at h1 h2 h3 h4
-  subst h1 h2 h3 h4
-  rfl
-
-theorem Candle.handOver_haCandle (c : Candle F) (p : Option (Candle F)) (h : c.Pristine) :
-    (haCandle c p).handOver = c := by
-  obtain ⟨o, hh, l, cl, v, ts, inds, subs, tag, clean⟩ := c
-  obtain ⟨h1, h2, h3, h4⟩ := h
-  simp only at h1 h2 h3 h4
-  subst h1 h2 h3 h4
-  simp only [haCandle, Candle.handOver, Candle.recoverClean, Candle.reset]
-  cases ts <;> rfl
-
-theorem HaRel.map_handOver {B Z : List (Candle F)} (h : HaRel B Z) (hp : ∀ c ∈ B, c.Pristine) :
-    Z.map Candle.handOver = B := by
-  induction h with
-  | nil => rfl
-  | @cons b z B' Z' hbz _ ih =>
-    obtain ⟨p, rfl⟩ := hbz
-    rw [List.map_cons, Candle.handOver_haCandle b p (hp b (by simp)), ih (fun c hc => hp c (by simp [hc]))]
-
-omit [PyF F] in
-theorem trimCandles_none (cs : List (Candle F)) : trimCandles none cs = .ok cs := by
-  unfold trimCandles; rfl
-
-/-- a list with the same stamps as a list the trim leaves alone is left alone too -/
-theorem trim_keeps_congr (life : Option Int) (cs cs' : List (Candle F)) (hts : cs'.map (·.ts) = cs.map (·.ts))
-    (h : trimCandles life cs = .ok cs) : trimCandles life cs' = .ok cs' := by
-  cases life with
-  | none => exact trimCandles_none cs'
-  | some l =>
-    obtain ⟨_, _, h3⟩ := trim_congr_ts l cs cs' cs hts h
-    simpa using h3
-
-/-- **the default manager without a timeframe still holds the raw stream**: whatever it did to the
-candles handed to the constructor (Heikin-Ashi conversion; a lifespan that trims nothing), handing its
-candles over to a member manager (`recover_clean_values`, `clean_values = {}`, `reset_candle`) gives the
-caller's candles back -/
-theorem tasks_rawDefault (cfg : MgrCfg) (init : List (Candle F)) (htf : cfg.tf = none)
-    (hp : ∀ c ∈ init, c.Pristine) (hkeep : trimCandles cfg.lifespan init = .ok init) :
-    ∃ X, tasks cfg init = .ok X ∧ X.map Candle.handOver = init := by
-  unfold tasks
-  rw [htf]
-  have hcol : collapseCandles none cfg.fill init = .ok init := by unfold collapseCandles; rfl
-  rw [hcol]
-  simp only [bind, Except.bind]
-  by_cases hha : (cfg.ha && !init.isEmpty) = true
-  · rw [if_pos hha]
-    have hconv := convertCandles_resume [] init (by simp) (fun c hc => (hp c hc).tag)
-    rw [List.nil_append] at hconv
-    rw [hconv]
-    obtain ⟨ext, he, hrel⟩ := haFold_rel init []
-    rw [List.nil_append] at he
-    simp only
-    rw [he]
-    exact ⟨ext, trim_keeps_congr _ init ext hrel.ts_eq hkeep, hrel.map_handOver hp⟩
-  · rw [if_neg hha]
-    exact ⟨init, hkeep, by
-      rw [List.map_congr_left (fun c hc => Candle.handOver_pristine c (hp c hc))]; simp⟩
-
-/-! ### the member manager at attach time = the standalone twin's manager -/
-
-/-- **hand-over of the raw stream**: the manager a member with own timeframe `atf` / `secs` is attached to
-when the Hexital is constructed from `init` is the manager of a standalone indicator with that timeframe
-constructed from `init` -/
-def HandsOverRaw (cfg : MgrCfg) (htf atf : Option String) (secs : Option Int) (init : List (Candle F)) : Prop :=
-  twinManager cfg htf atf secs init = Manager.init { cfg with tf := secs } init
-
-theorem tasks_nil (cfg : MgrCfg) : tasks cfg ([] : List (Candle F)) = .ok [] := by
-  unfold tasks collapseCandles
-  cases cfg.tf <;> cases cfg.lifespan <;> simp [bind, Except.bind, trimCandles]
-
-/-- (a) a Hexital constructed WITHOUT candles (everything arrives through `append`): any Hexital-level
-timeframe / fill / Heikin-Ashi / lifespan -/
-theorem handsOverRaw_nil (cfg : MgrCfg) (htf atf : Option String) (secs : Option Int)
-    (hkey : atf.getD defaultKey ≠ defaultKey) :
-    HandsOverRaw (F := F) cfg htf atf secs [] := by
-  unfold HandsOverRaw twinManager Manager.init
-  rw [tasks_nil, tasks_nil]
-  have hraw : memberRaw htf atf ({ cfg := cfg, candles := [] } : Manager F) = [] := by
-    unfold memberRaw; split <;> rfl
-  simp only [bind, Except.bind, pure, Except.pure, if_neg hkey, hraw, tasks_nil]
-
-/-- (b) a Hexital WITHOUT a timeframe of its own, constructed from pristine candles none of which the
-lifespan trims at construction time; Heikin-Ashi or not, fill flag or not -/
-theorem handsOverRaw_rawDefault (cfg : MgrCfg) (htf atf : Option String) (secs : Option Int)
-    (init : List (Candle F)) (hkey : atf.getD defaultKey ≠ defaultKey)
-    (htf0 : cfg.tf = none) (hname : htf = none) (hp : ∀ c ∈ init, c.Pristine)
-    (hkeep : trimCandles cfg.lifespan init = .ok init) :
-    HandsOverRaw cfg htf atf secs init := by
-  obtain ⟨X, hX, hmap⟩ := tasks_rawDefault cfg init htf0 hp hkeep
-  unfold HandsOverRaw twinManager
-  have hne : (atf == htf) = false := by
-    subst hname
-    cases atf with
-    | none => exact absurd rfl hkey
-    | some t => rfl
-  show (do let dm ← Manager.init cfg init
-           if atf.getD defaultKey = defaultKey then pure dm
-           else Manager.init { cfg with tf := secs } (memberRaw htf atf dm)) = _
-  unfold Manager.init
-  rw [hX]
-  simp only [bind, Except.bind, pure, Except.pure, if_neg hkey, memberRaw, hne, Bool.false_eq_true, if_false]
-  have : X.map (fun c => ({ c.recoverClean with clean := none } : Candle F).reset) = init := hmap
-  rw [this]
+/-! ## Part A: members handed to the constructor -/
 
 /-! ### `valid_indicators` against the list handed to the constructor -/
 
@@ -267,32 +151,42 @@ def Member.effCfg (a : Member F) (cfg : MgrCfg) : MgrCfg :=
   | some _ => { cfg with tf := a.tfSecs }
   | none => cfg
 
-/-- under `HandsOverRaw` the twin of `Writes/Twin.lean` (a standalone indicator over the manager the member
-is attached to) IS the plain standalone indicator with the member's effective configuration -/
-theorem twinInit_eq_init (a : Member F) (cfg : MgrCfg) (htf : Option String) (init : List (Candle F))
-    (hraw : a.tfName ≠ none → HandsOverRaw cfg htf a.tfName a.tfSecs init) :
-    twinInit a cfg htf init = IndState.init a.tree (a.effCfg cfg) init := by
+/-- the twin of `Writes/Twin.lean` (a standalone indicator over the manager the member is attached to by the
+constructor) IS the plain standalone indicator with the member's effective configuration constructed from the same
+candles.  `hkey`: a timeframe NAME equal to the manager key "default" would land the member on the default manager;
+harmless only if the member's timeframe then is the Hexital's (in particular `hkey` holds when the name is not
+"default", `twinInit_eq_init'`). -/
+theorem twinInit_eq_init (a : Member F) (cfg : MgrCfg) (init : List (Candle F))
+    (hkey : a.tfName = some defaultKey → a.tfSecs = cfg.tf) :
+    twinInit a cfg init = IndState.init a.tree (a.effCfg cfg) init := by
   cases hn : a.tfName with
   | none =>
     rw [twinInit_of_none a hn]
     unfold Member.effCfg; rw [hn]
   | some t =>
-    have h := hraw (by rw [hn]; simp)
-    unfold HandsOverRaw at h
-    unfold twinInit IndState.init Member.effCfg
-    rw [h, hn]
+    by_cases ht : t = defaultKey
+    · subst ht
+      have hs := hkey hn
+      unfold twinInit twinManager IndState.init Member.effCfg
+      rw [hn, hs]
+      simp only [Option.getD_some, if_true]
+    · rw [twinInit_of_key a (by rw [hn]; exact ht)]
+      unfold Member.effCfg; rw [hn]
+
+omit [PyF F] in
+theorem Writes.key_of_ne {a : Member F} (h : a.tfName ≠ some defaultKey) {x : Option Int} :
+    a.tfName = some defaultKey → a.tfSecs = x := fun e => absurd e h
 
 /-- **A member WITH its own timeframe behaves exactly like its standalone twin fed the raw stream.**
 As `member_standalone`, for ANY member: the twin is the standalone indicator with the member's tree and
 effective configuration (`cfg` with the member's timeframe) constructed from the same candles and driven with
-the same program.  `hraw` (only needed for a member with a timeframe) says that the default manager still
-holds the raw stream when the member manager is created – see `handsOverRaw_nil`, `handsOverRaw_rawDefault`. -/
+the same program – whatever the Hexital-level timeframe / fill / Heikin-Ashi / lifespan. -/
 theorem member_standalone_tf (cfg : MgrCfg) (tf : Option String) (init : List (Candle F))
     (members : List (Member F)) (a : Member F) (N : List String) (ops : List (TwinOp F)) (H : Hexital F)
     (ha : a ∈ Hexital.dedupe members)
     (hsecs : ∀ m, m ∈ Hexital.dedupe members → m.tfName = a.tfName →
       a.tfName.getD defaultKey ≠ defaultKey → m.tfSecs = a.tfSecs)
-    (hraw : a.tfName ≠ none → HandsOverRaw cfg tf a.tfName a.tfSecs init)
+    (hkey : a.tfName = some defaultKey → a.tfSecs = cfg.tf)
     (hoth : ∀ m, m ∈ Hexital.dedupe members → m.tree.name ≠ a.tree.name → ∀ k, k ∈ m.tree.allNames → k ∈ N)
     (hok : TreeOK N a.tree) (hops : ∀ op, op ∈ ops → op.OK N a.tree.name)
     (hrun : runHexital cfg tf init members ops = .ok H) :
@@ -307,7 +201,7 @@ theorem member_standalone_tf (cfg : MgrCfg) (tf : Option String) (init : List (C
   obtain ⟨twin, hrun', ht, inv⟩ := member_twin cfg tf init members a ops H ha
     hsecs hoth hok hops hrun
   unfold runTwin at hrun'
-  rw [twinInit_eq_init a cfg tf init hraw] at hrun'
+  rw [twinInit_eq_init a cfg init hkey] at hrun'
   refine ⟨twin, hrun', ?_, fun name hp hr => inv.column name hp hr⟩
   obtain ⟨hi, m, h1, h2, h3, h4, h5, h6⟩ := inv.readings (ht ▸ hok)
   exact ⟨hi, m, h1, h2.trans ht, h3, h4, h5, fun k hk => h6 k (ht ▸ hk)⟩
@@ -344,12 +238,12 @@ theorem schedOps_runInd (chunks : List (List (Candle F))) (nm : String) (s : Ind
   simp only [List.foldlM_map]
   rfl
 
-/-- **`C08.members_FULL` under its presuppositions** (same statement, same conclusion; the added hypotheses are
-the four marked lines).  For every Hexital configuration, member set (any mix of timeframes), stream and
-append schedule, each member's manager holds the same candles (OHLCV, timestamps) and, under the member's
-names, the same readings as a standalone indicator with the member's effective configuration constructed from
-the same initial candles and fed the same chunks. -/
-theorem members_partial (cfg : MgrCfg) (tfName : Option String) (members : List (Member F))
+/-- **`C08.members_FULL` under its presuppositions**, most general form of the key hypothesis.  For every Hexital
+configuration, member set (any mix of timeframes), construction candles and append schedule, each member's manager
+holds the same candles (OHLCV, timestamps) and, under the member's names, the same readings as a standalone indicator
+with the member's effective configuration constructed from the same initial candles and fed the same chunks.
+`hkey`: the member's timeframe name is not the manager key "default" – or, if it is, its timeframe is the Hexital's. -/
+theorem members_all_key (cfg : MgrCfg) (tfName : Option String) (members : List (Member F))
     (init : List (Candle F)) (chunks : List (List (Candle F))) (mem : Member F) (h : Hexital F)
     (twin : IndState F) (N : List String)
     (hmem : mem ∈ members) (huniq : ∀ m' ∈ members, m'.tree.name = mem.tree.name → m' = mem)
@@ -359,8 +253,8 @@ theorem members_partial (cfg : MgrCfg) (tfName : Option String) (members : List 
     -- (2) members sharing the member's timeframe NAME share its timeframe (true of every parsed timeframe)
     (hsecs : ∀ m, m ∈ members → m.tfName = mem.tfName → mem.tfName.getD defaultKey ≠ defaultKey →
       m.tfSecs = mem.tfSecs)
-    -- (3) the default manager at construction time still holds the raw stream
-    (hraw : mem.tfName ≠ none → HandsOverRaw cfg tfName mem.tfName mem.tfSecs init)
+    -- (3) the timeframe name does not collide with the key of the default manager
+    (hkey : mem.tfName = some defaultKey → mem.tfSecs = cfg.tf)
     (hrun : (do let h ← Hexital.init cfg tfName init members
                 let h ← h.calculate none
                 chunks.foldlM (fun (h : Hexital F) ch => h.append ch) h) = .ok h)
@@ -383,7 +277,7 @@ theorem members_partial (cfg : MgrCfg) (tfName : Option String) (members : List 
   obtain ⟨twin', ht', ⟨hi, m, h1, _, h3, _, h5, h6⟩, _⟩ :=
     member_standalone_tf cfg tfName init members mem N (schedOps chunks) h
       (Hexital.mem_dedupe_of_unique members mem hmem huniq)
-      (fun m hm => hsecs m (Hexital.dedupe_sub members m hm)) hraw
+      (fun m hm => hsecs m (Hexital.dedupe_sub members m hm)) hkey
       (fun m hm => hoth m (Hexital.dedupe_sub members m hm)) hok (schedOps_ok chunks _) hrun'
   have hsame : twin' = twin := by
     have e : (do let s ← IndState.init mem.tree (mem.effCfg cfg) init
@@ -400,35 +294,46 @@ theorem members_partial (cfg : MgrCfg) (tfName : Option String) (members : List 
   subst hsame
   exact ⟨hi, m, h1, h3, h5, h6⟩
 
-/-! ### `members_FULL` as stated is FALSE: a lifespan that trims at construction time
-
-A Hexital with `candles_lifespan = 150 s` and no timeframe, constructed from six one-minute candles stamped
-60 … 360 s, with one member `SMA_2` on `T2`.  The default manager trims the raw candles to the stamps
-≥ 360 − 150 = 210, i.e. 240, 300, 360, BEFORE the member manager collapses them: the member's bucket
-(120, 240] is built from the candle 240 alone (volume 10), the standalone twin's from 180 and 240 (volume 20),
-and both survive the twin's own trim (240 ≥ 360 − 150).  Replayed on the library (see the report). -/
-
-/-- the statement of `C08.members_FULL`, verbatim -/
-def MembersFullStatement : Prop :=
-  ∀ {F : Type} [PyF F] (cfg : MgrCfg) (tfName : Option String) (members : List (Member F))
+/-- **`C08.members_FULL` for EVERY member** – own timeframe or not, every Hexital-level timeframe / fill /
+Heikin-Ashi / lifespan, any construction candles and appended chunks.  The statement of `members_FULL` word for word
+(`hmem`, `huniq`, `hrun`, `htwin`, conclusion) plus its presuppositions, all explicit:
+(1) no collision / input dependency between the member and the others (`hoth`, `hok : TreeOK N mem.tree`, as in
+`member_standalone`); (2) members sharing the member's timeframe NAME carry the same seconds (`hsecs`);
+(3) the member's timeframe name is not the literal manager key "default" (`hkey`). -/
+theorem members_all (cfg : MgrCfg) (tfName : Option String) (members : List (Member F))
     (init : List (Candle F)) (chunks : List (List (Candle F))) (mem : Member F) (h : Hexital F)
-    (twin : IndState F),
-    mem ∈ members → (∀ m' ∈ members, m'.tree.name = mem.tree.name → m' = mem) →
-    (do let h ← Hexital.init cfg tfName init members
-        let h ← h.calculate none
-        chunks.foldlM (fun (h : Hexital F) ch => h.append ch) h) = .ok h →
-    (do let s ← IndState.init mem.tree (match mem.tfName with
-                                          | some _ => { cfg with tf := mem.tfSecs }
-                                          | none => cfg) init
-        let s ← s.calculate
-        chunks.foldlM (fun (s : IndState F) ch => s.append ch) s) = .ok twin →
+    (twin : IndState F) (N : List String)
+    (hmem : mem ∈ members) (huniq : ∀ m' ∈ members, m'.tree.name = mem.tree.name → m' = mem)
+    (hoth : ∀ m, m ∈ members → m.tree.name ≠ mem.tree.name → ∀ k, k ∈ m.tree.allNames → k ∈ N)
+    (hok : TreeOK N mem.tree)
+    (hsecs : ∀ m, m ∈ members → m.tfName = mem.tfName → m.tfSecs = mem.tfSecs)
+    (hkey : mem.tfName ≠ some defaultKey)
+    (hrun : (do let h ← Hexital.init cfg tfName init members
+                let h ← h.calculate none
+                chunks.foldlM (fun (h : Hexital F) ch => h.append ch) h) = .ok h)
+    (htwin : (do let s ← IndState.init mem.tree (match mem.tfName with
+                                                   | some _ => { cfg with tf := mem.tfSecs }
+                                                   | none => cfg) init
+                 let s ← s.calculate
+                 chunks.foldlM (fun (s : IndState F) ch => s.append ch) s) = .ok twin) :
     ∃ hi m, dlookup mem.tree.name h.indicators = some hi ∧ dlookup hi.mgrKey h.managers = some m ∧
       m.candles.map Candle.core = twin.mgr.candles.map Candle.core ∧
       ∀ k, k ∈ mem.tree.allNames →
         m.candles.map (fun c => (dlookup k c.inds, dlookup k c.subs)) =
-        twin.mgr.candles.map (fun c => (dlookup k c.inds, dlookup k c.subs))
+        twin.mgr.candles.map (fun c => (dlookup k c.inds, dlookup k c.subs)) :=
+  members_all_key cfg tfName members init chunks mem h twin N hmem huniq hoth hok
+    (fun m hm he _ => hsecs m hm he) (Writes.key_of_ne hkey) hrun htwin
 
-namespace TwinTfCx
+/-! ### the former counterexample, now a positive example: a lifespan that trims at construction time
+
+A Hexital with `candles_lifespan = 150 s` and no timeframe, constructed from six one-minute candles stamped
+60 … 360 s, with one member `SMA_2_T2` on `T2` (120 s).  Before the repair the default manager trimmed the raw candles
+to the stamps ≥ 360 − 150 = 210, i.e. 240, 300, 360, BEFORE the member manager collapsed them: the member's bucket
+(120, 240] was built from the candle 240 alone (volume 10), the standalone twin's from 180 and 240 (volume 20) – the
+former `members_FULL_counterexample`.  Now the member manager is built from the six candles as given: both hold the
+buckets 240 and 360 with volumes 20, 20 and the same readings. -/
+
+namespace TwinTfWitness
 
 def cfg : MgrCfg := { lifespan := some 150 }
 def mem : Member Int := { tree := mkTop (.sma 2 "close") "SMA_2_T2" 4, tfName := some "T2", tfSecs := some 120 }
@@ -448,49 +353,189 @@ def twin : PyM (IndState Int) := do
   let s ← s.calculate
   ([] : List (List (Candle Int))).foldlM (fun (s : IndState Int) ch => s.append ch) s
 
-/-- the volumes, read off the `core` of the candles -/
+/-- the volumes and stamps, read off the `core` of the candles -/
 def vols (cores : List (Num Int × Num Int × Num Int × Num Int × Num Int × Option Int × Bool × Option (Clean Int))) :
-    List (Option Int) :=
-  cores.map fun p => match p.2.2.2.2.1 with
+    List (Option Int × Option Int) :=
+  cores.map fun p => (match p.2.2.2.2.1 with
     | .int n => some n
+    | _ => none, p.2.2.2.2.2.1)
+
+/-- what is stored under the member's name, as integers -/
+def stored (cs : List (Candle Int)) : List (Option Int) :=
+  (storedUnder "SMA_2_T2" cs).map fun p => match p.1 with
+    | some (.s (.num (.int n))) => some n
+    | some (.s (.num (.flt x))) => some x
     | _ => none
 
-/-- both runs succeed; the member's buckets carry the volumes 10, 20, the twin's 20, 20 -/
-theorem facts : (match hex, twin with
+/-- both runs succeed; the member's buckets and the twin's are stamped 240, 360, carry the volumes 20, 20 and the same
+`SMA_2_T2` reading (15 on the last bucket: closes 14 and 16) – the default manager meanwhile kept the raw candles
+240, 300, 360 -/
+example : (match hex, twin with
     | .ok h, .ok t =>
-      (match dlookup "SMA_2_T2" h.indicators with
-       | some hi =>
+      (match dlookup "SMA_2_T2" h.indicators, dlookup defaultKey h.managers with
+       | some hi, some dm =>
          (match dlookup hi.mgrKey h.managers with
-          | some m => vols (m.candles.map Candle.core) == [some 10, some 20] &&
-                      vols (t.mgr.candles.map Candle.core) == [some 20, some 20]
+          | some m => vols (m.candles.map Candle.core) == [(some 20, some 240), (some 20, some 360)] &&
+                      vols (t.mgr.candles.map Candle.core) == [(some 20, some 240), (some 20, some 360)] &&
+                      vols (dm.candles.map Candle.core) == [(some 10, some 240), (some 10, some 300), (some 10, some 360)] &&
+                      stored m.candles == [none, some 16] && stored t.mgr.candles == [none, some 16]
           | none => false)
-       | none => false)
+       | _, _ => false)
     | _, _ => false) = true := by decide +kernel
 
-end TwinTfCx
+end TwinTfWitness
 
-/-- **`members_FULL` does not hold as stated** (a Hexital-level lifespan that trims at construction time) -/
-theorem members_FULL_counterexample : ¬ MembersFullStatement := by
-  intro hF
-  have hf := TwinTfCx.facts
-  cases hh : TwinTfCx.hex with
-  | error e => rw [hh] at hf; cases hf
-  | ok h =>
-    cases ht : TwinTfCx.twin with
-    | error e => rw [hh, ht] at hf; cases hf
-    | ok t =>
-      rw [hh, ht] at hf
-      obtain ⟨hi, m, h1, h2, h3, _⟩ := @hF Int _ TwinTfCx.cfg none [TwinTfCx.mem] TwinTfCx.init [] TwinTfCx.mem h t
-        (by simp) (by intro m' hm' _; simpa using hm') hh ht
-      have h1' : dlookup "SMA_2_T2" h.indicators = some hi := h1
-      simp only [h1', h2, h3] at hf
-      revert hf
-      generalize TwinTfCx.vols (t.mgr.candles.map Candle.core) = l
-      intro hf
-      simp only [Bool.and_eq_true, beq_iff_eq] at hf
-      obtain ⟨e1, e2⟩ := hf
-      rw [e1] at e2
-      exact absurd e2 (by decide)
+/-! ## Part B: the `add_indicator` path – a member manager created LATE from the default manager's candles -/
+
+/-- the candles a member manager created by `add_indicator` is built from (`_validate_indicators` without
+`source_candles`): the default manager's candles as they are when the member's timeframe is the Hexital's own, else
+handed over raw -/
+def memberRaw (htf atf : Option String) (dm : Manager F) : List (Candle F) :=
+  if atf == htf then dm.candles
+  else dm.candles.map fun c => ({ c.recoverClean with clean := none } : Candle F).reset
+
+omit [PyF F] in
+/-- … this is what the model does -/
+theorem attachRaw_none (h : Hexital F) (m : Member F) (dm : Manager F)
+    (hd : dlookup defaultKey h.managers = some dm) :
+    Hexital.attachRaw none h m = .ok (memberRaw h.tfName m.tfName dm) := by
+  unfold Hexital.attachRaw Hexital.manager
+  rw [hd]
+  rfl
+
+omit [PyF F] in
+/-- the constructor's path takes the candles as given -/
+theorem attachRaw_some (cs : List (Candle F)) (h : Hexital F) (m : Member F) :
+    Hexital.attachRaw (some cs) h m = .ok cs := rfl
+
+/-- the manager `add_indicator` creates for a member with own timeframe `atf` / `secs` (a new key) when it is called
+right after the Hexital (`cfg`, timeframe name `htf`) was constructed from `cs`: a manager over the default manager's
+candles with the member's timeframe.  (Before the library's repair the constructor did the same.) -/
+def lateManager (cfg : MgrCfg) (htf atf : Option String) (secs : Option Int) (cs : List (Candle F)) :
+    PyM (Manager F) := do
+  let dm ← Manager.init cfg cs
+  if atf.getD defaultKey = defaultKey then pure dm
+  else Manager.init { cfg with tf := secs } (memberRaw htf atf dm)
+
+/-- a candle as the caller hands it over: never converted, no readings -/
+structure Candle.Pristine (c : Candle F) : Prop where
+  clean : c.clean = none
+  inds : c.inds = []
+  subs : c.subs = []
+  tag : c.tag = false
+
+/-- what `_validate_indicators` does to a copied candle before a new member manager collapses it -/
+def Candle.handOver (c : Candle F) : Candle F := ({ c.recoverClean with clean := none } : Candle F).reset
+
+omit [PyF F] in
+theorem Candle.handOver_pristine (c : Candle F) (h : c.Pristine) : c.handOver = c := by
+  obtain ⟨o, hh, l, cl, v, ts, inds, subs, tag, clean⟩ := c
+  obtain ⟨h1, h2, h3, h4⟩ := h
+  simp only at h1 h2 h3 h4
+  subst h1 h2 h3 h4
+  rfl
+
+theorem Candle.handOver_haCandle (c : Candle F) (p : Option (Candle F)) (h : c.Pristine) :
+    (haCandle c p).handOver = c := by
+  obtain ⟨o, hh, l, cl, v, ts, inds, subs, tag, clean⟩ := c
+  obtain ⟨h1, h2, h3, h4⟩ := h
+  simp only at h1 h2 h3 h4
+  subst h1 h2 h3 h4
+  simp only [haCandle, Candle.handOver, Candle.recoverClean, Candle.reset]
+  cases ts <;> rfl
+
+theorem HaRel.map_handOver {B Z : List (Candle F)} (h : HaRel B Z) (hp : ∀ c ∈ B, c.Pristine) :
+    Z.map Candle.handOver = B := by
+  induction h with
+  | nil => rfl
+  | @cons b z B' Z' hbz _ ih =>
+    obtain ⟨p, rfl⟩ := hbz
+    rw [List.map_cons, Candle.handOver_haCandle b p (hp b (by simp)), ih (fun c hc => hp c (by simp [hc]))]
+
+omit [PyF F] in
+theorem trimCandles_none (cs : List (Candle F)) : trimCandles none cs = .ok cs := by
+  unfold trimCandles; rfl
+
+/-- a list with the same stamps as a list the trim leaves alone is left alone too -/
+theorem trim_keeps_congr (life : Option Int) (cs cs' : List (Candle F)) (hts : cs'.map (·.ts) = cs.map (·.ts))
+    (h : trimCandles life cs = .ok cs) : trimCandles life cs' = .ok cs' := by
+  cases life with
+  | none => exact trimCandles_none cs'
+  | some l =>
+    obtain ⟨_, _, h3⟩ := trim_congr_ts l cs cs' cs hts h
+    simpa using h3
+
+/-- **the default manager without a timeframe still holds the raw stream**: whatever it did to the
+candles handed to the constructor (Heikin-Ashi conversion; a lifespan that trims nothing), handing its
+candles over to a member manager (`recover_clean_values`, `clean_values = {}`, `reset_candle`) gives the
+caller's candles back -/
+theorem tasks_rawDefault (cfg : MgrCfg) (init : List (Candle F)) (htf : cfg.tf = none)
+    (hp : ∀ c ∈ init, c.Pristine) (hkeep : trimCandles cfg.lifespan init = .ok init) :
+    ∃ X, tasks cfg init = .ok X ∧ X.map Candle.handOver = init := by
+  unfold tasks
+  rw [htf]
+  have hcol : collapseCandles none cfg.fill init = .ok init := by unfold collapseCandles; rfl
+  rw [hcol]
+  simp only [bind, Except.bind]
+  by_cases hha : (cfg.ha && !init.isEmpty) = true
+  · rw [if_pos hha]
+    have hconv := convertCandles_resume [] init (by simp) (fun c hc => (hp c hc).tag)
+    rw [List.nil_append] at hconv
+    rw [hconv]
+    obtain ⟨ext, he, hrel⟩ := haFold_rel init []
+    rw [List.nil_append] at he
+    simp only
+    rw [he]
+    exact ⟨ext, trim_keeps_congr _ init ext hrel.ts_eq hkeep, hrel.map_handOver hp⟩
+  · rw [if_neg hha]
+    exact ⟨init, hkeep, by
+      rw [List.map_congr_left (fun c hc => Candle.handOver_pristine c (hp c hc))]; simp⟩
+
+/-! ### the member manager at attach time = the standalone twin's manager -/
+
+/-- **hand-over of the raw stream** (late path): the manager `add_indicator` creates for a member with own timeframe
+`atf` / `secs` right after the Hexital was constructed from `init` is the manager of a standalone indicator with that
+timeframe constructed from `init`.  (For the CONSTRUCTOR this holds by definition now: `twinManager`.) -/
+def HandsOverRaw (cfg : MgrCfg) (htf atf : Option String) (secs : Option Int) (init : List (Candle F)) : Prop :=
+  lateManager cfg htf atf secs init = Manager.init { cfg with tf := secs } init
+
+theorem tasks_nil (cfg : MgrCfg) : tasks cfg ([] : List (Candle F)) = .ok [] := by
+  unfold tasks collapseCandles
+  cases cfg.tf <;> cases cfg.lifespan <;> simp [bind, Except.bind, trimCandles]
+
+/-- (a) a Hexital constructed WITHOUT candles (everything arrives through `append`): any Hexital-level
+timeframe / fill / Heikin-Ashi / lifespan -/
+theorem handsOverRaw_nil (cfg : MgrCfg) (htf atf : Option String) (secs : Option Int)
+    (hkey : atf.getD defaultKey ≠ defaultKey) :
+    HandsOverRaw (F := F) cfg htf atf secs [] := by
+  unfold HandsOverRaw lateManager Manager.init
+  rw [tasks_nil, tasks_nil]
+  have hraw : memberRaw htf atf ({ cfg := cfg, candles := [] } : Manager F) = [] := by
+    unfold memberRaw; split <;> rfl
+  simp only [bind, Except.bind, pure, Except.pure, if_neg hkey, hraw, tasks_nil]
+
+/-- (b) a Hexital WITHOUT a timeframe of its own, constructed from pristine candles none of which the
+lifespan trims at construction time; Heikin-Ashi or not, fill flag or not -/
+theorem handsOverRaw_rawDefault (cfg : MgrCfg) (htf atf : Option String) (secs : Option Int)
+    (init : List (Candle F)) (hkey : atf.getD defaultKey ≠ defaultKey)
+    (htf0 : cfg.tf = none) (hname : htf = none) (hp : ∀ c ∈ init, c.Pristine)
+    (hkeep : trimCandles cfg.lifespan init = .ok init) :
+    HandsOverRaw cfg htf atf secs init := by
+  obtain ⟨X, hX, hmap⟩ := tasks_rawDefault cfg init htf0 hp hkeep
+  unfold HandsOverRaw lateManager
+  have hne : (atf == htf) = false := by
+    subst hname
+    cases atf with
+    | none => exact absurd rfl hkey
+    | some t => rfl
+  show (do let dm ← Manager.init cfg init
+           if atf.getD defaultKey = defaultKey then pure dm
+           else Manager.init { cfg with tf := secs } (memberRaw htf atf dm)) = _
+  unfold Manager.init
+  rw [hX]
+  simp only [bind, Except.bind, pure, Except.pure, if_neg hkey, memberRaw, hne, Bool.false_eq_true, if_false]
+  have : X.map (fun c => ({ c.recoverClean with clean := none } : Candle F).reset) = init := hmap
+  rw [this]
 
 /-! ### decidable forms of the hypotheses -/
 
@@ -537,7 +582,7 @@ PROCESSED candles is harmless as soon as the manager's tasks are idempotent on t
 theorem handsOverRaw_sameTf (cfg : MgrCfg) (name : String) (init : List (Candle F))
     (hidem : ∀ X, tasks cfg init = .ok X → tasks cfg X = .ok X) :
     HandsOverRaw cfg (some name) (some name) cfg.tf init := by
-  unfold HandsOverRaw twinManager
+  unfold HandsOverRaw lateManager
   have hcfg : ({ cfg with tf := cfg.tf } : MgrCfg) = cfg := rfl
   rw [hcfg]
   unfold Manager.init
@@ -685,9 +730,9 @@ theorem tasks_idem_tfFillHA (cfg : MgrCfg) (tf : Int) (htf : 0 < tf) (h1 : cfg.t
   rw [this] at e2
   exact e2
 
-/-! ### the presupposition of the C08 oracle, spelt out -/
+/-! ### the cases proved, spelt out -/
 
-/-- the default manager still holds the raw stream when the member managers are created: the Hexital is
+/-- the default manager still holds the raw stream when a member manager is created from it: the Hexital is
 constructed without candles (everything arrives through `append`, ANY Hexital-level settings), or it has no
 timeframe of its own, is constructed from pristine candles and its lifespan trims none of them at construction
 time (Heikin-Ashi or not) -/
@@ -710,43 +755,11 @@ theorem Writes.getD_ne_default {atf : Option String} (h1 : atf ≠ none) (h2 : a
   | none => exact absurd rfl h1
   | some t => intro e; exact h2 (by simpa using e)
 
-/-- **`C08.members_FULL` on the domain of the C08 oracle.**  Any Hexital configuration, any member set (any mix
-of timeframes, shared or not), any append schedule: each member ends with the candles and readings of the
-standalone indicator with its effective configuration fed the same stream – provided
-(1) no collision / input dependency between the member and the others (`TreeOK`, as in `member_standalone`),
-(2) the `Member` records are well formed (a timeframe name determines its seconds and is not the manager key
-"default"), and (3) the default manager still holds the raw stream when the member managers are created
-(`RawAtAttach`).  (3) cannot be dropped: `members_FULL_counterexample`. -/
-theorem members_rawAtAttach (cfg : MgrCfg) (tfName : Option String) (members : List (Member F))
-    (init : List (Candle F)) (chunks : List (List (Candle F))) (mem : Member F) (h : Hexital F)
-    (twin : IndState F) (N : List String)
-    (hmem : mem ∈ members) (huniq : ∀ m' ∈ members, m'.tree.name = mem.tree.name → m' = mem)
-    (hoth : ∀ m, m ∈ members → m.tree.name ≠ mem.tree.name → ∀ k, k ∈ m.tree.allNames → k ∈ N)
-    (hok : TreeOK N mem.tree)
-    (hsecs : ∀ m, m ∈ members → m.tfName = mem.tfName → m.tfSecs = mem.tfSecs)
-    (hkey : mem.tfName ≠ some defaultKey)
-    (hraw : RawAtAttach cfg tfName init)
-    (hrun : (do let h ← Hexital.init cfg tfName init members
-                let h ← h.calculate none
-                chunks.foldlM (fun (h : Hexital F) ch => h.append ch) h) = .ok h)
-    (htwin : (do let s ← IndState.init mem.tree (match mem.tfName with
-                                                   | some _ => { cfg with tf := mem.tfSecs }
-                                                   | none => cfg) init
-                 let s ← s.calculate
-                 chunks.foldlM (fun (s : IndState F) ch => s.append ch) s) = .ok twin) :
-    ∃ hi m, dlookup mem.tree.name h.indicators = some hi ∧ dlookup hi.mgrKey h.managers = some m ∧
-      m.candles.map Candle.core = twin.mgr.candles.map Candle.core ∧
-      ∀ k, k ∈ mem.tree.allNames →
-        m.candles.map (fun c => (dlookup k c.inds, dlookup k c.subs)) =
-        twin.mgr.candles.map (fun c => (dlookup k c.inds, dlookup k c.subs)) :=
-  members_partial cfg tfName members init chunks mem h twin N hmem huniq hoth hok
-    (fun m hm he _ => hsecs m hm he)
-    (fun hn => hraw.handsOverRaw mem.tfName mem.tfSecs (Writes.getD_ne_default hn hkey)) hrun htwin
-
 /-! ### all proved cases in one statement -/
 
-/-- the cases in which the member `a`'s manager, created from the default manager's candles at construction
-time, is the manager of the standalone twin constructed from the caller's candles -/
+/-- the cases in which the member `a`'s manager, were it created from the default manager's candles right after
+construction (as `add_indicator` does, and as the constructor did before the repair), is the manager of the standalone
+twin constructed from the caller's candles -/
 inductive AttachOK (cfg : MgrCfg) (htf : Option String) (init : List (Candle F)) (a : Member F) : Prop
   /-- no timeframe of its own: the member lives on the default manager (`member_standalone`) -/
   | noTf (h : a.tfName = none)
@@ -769,7 +782,8 @@ theorem AttachOK.handsOverRaw {cfg : MgrCfg} {htf : Option String} {init : List 
       rw [← hn, ha, hs]
       exact handsOverRaw_sameTf cfg name init hidem
 
-/-- **`C08.members_FULL` on every case proved** (`AttachOK`), hypotheses (1) and (2) as in `members_rawAtAttach` -/
+/-- the former `members_attachOK` (`members_FULL` on the cases of `AttachOK`), now a corollary of `members_all_key`:
+the hypothesis `hatt` only serves to supply the key condition -/
 theorem members_attachOK (cfg : MgrCfg) (tfName : Option String) (members : List (Member F))
     (init : List (Candle F)) (chunks : List (List (Candle F))) (mem : Member F) (h : Hexital F)
     (twin : IndState F) (N : List String)
@@ -791,8 +805,14 @@ theorem members_attachOK (cfg : MgrCfg) (tfName : Option String) (members : List
       ∀ k, k ∈ mem.tree.allNames →
         m.candles.map (fun c => (dlookup k c.inds, dlookup k c.subs)) =
         twin.mgr.candles.map (fun c => (dlookup k c.inds, dlookup k c.subs)) :=
-  members_partial cfg tfName members init chunks mem h twin N hmem huniq hoth hok
-    (fun m hm he _ => hsecs m hm he) hatt.handsOverRaw hrun htwin
+  members_all_key cfg tfName members init chunks mem h twin N hmem huniq hoth hok
+    (fun m hm he _ => hsecs m hm he)
+    (by
+      intro e
+      cases hatt with
+      | noTf h => rw [h] at e; cases e
+      | raw hkey _ => exact absurd e hkey
+      | sameTf _ hs _ => exact hs) hrun htwin
 
 /-! ### non-vacuity (toy carrier `Int`) -/
 
@@ -800,6 +820,42 @@ theorem isOk_ok {α : Type} {x : PyM α} (h : isOk x = true) : ∃ a, x = .ok a 
   cases x with
   | ok a => exact ⟨a, rfl⟩
   | error e => cases h
+
+/-! ### decidable forms of the hypotheses of `members_all` -/
+
+omit [PyF F] in
+/-- distinct names: a member is the only one of its name -/
+theorem Member.uniq_of_nodup (members : List (Member F)) (mem : Member F) (hmem : mem ∈ members)
+    (hnd : (members.map (·.tree.name)).Nodup) : ∀ m' ∈ members, m'.tree.name = mem.tree.name → m' = mem := by
+  intro m' hm' hn
+  induction members with
+  | nil => cases hmem
+  | cons x r ih =>
+    rw [List.map_cons, List.nodup_cons] at hnd
+    rcases List.mem_cons.1 hmem with e1 | e1 <;> rcases List.mem_cons.1 hm' with e2 | e2
+    · rw [e1, e2]
+    · exact absurd (List.mem_map.2 ⟨m', e2, hn.trans (by rw [e1])⟩) hnd.1
+    · exact absurd (List.mem_map.2 ⟨mem, e1, hn.symm.trans (by rw [e2])⟩) hnd.1
+    · exact ih e1 hnd.2 e2
+
+omit [PyF F] in
+theorem Member.others_of_b (members : List (Member F)) (mem : Member F) (N : List String)
+    (h : (C13.othersNames mem.tree.name members).all N.contains = true) :
+    ∀ m, m ∈ members → m.tree.name ≠ mem.tree.name → ∀ k, k ∈ m.tree.allNames → k ∈ N := by
+  intro m hm hn k hk
+  have := List.all_eq_true.1 h k (C13.othersNames_spec mem.tree.name members m hm hn k hk)
+  simpa using this
+
+omit [PyF F] in
+theorem Member.secs_of_b (members : List (Member F)) (mem : Member F)
+    (h : members.all (fun m => m.tfName != mem.tfName || m.tfSecs == mem.tfSecs) = true) :
+    ∀ m, m ∈ members → m.tfName = mem.tfName → m.tfSecs = mem.tfSecs := by
+  intro m hm he
+  have := List.all_eq_true.1 h m hm
+  simp only [Bool.or_eq_true, bne_iff_ne, ne_eq, beq_iff_eq] at this
+  rcases this with h | h
+  · exact absurd he h
+  · exact h
 
 namespace TwinTfEx
 
@@ -815,31 +871,30 @@ def cT : Member Int := { tree := mkTop (.ema 2 "close" (.int 2)) "EMA_2_T3" 4, t
 def members : List (Member Int) := [bT, a, aT, cT]
 def others : List String := bT.tree.allNames ++ a.tree.allNames ++ cT.tree.allNames
 
-/-- a Heikin-Ashi Hexital without a timeframe whose lifespan (8 min) trims nothing at construction time but
-does trim later -/
-def cfg : MgrCfg := { ha := true, lifespan := some 480 }
+/-- a Heikin-Ashi Hexital without a timeframe whose lifespan (4 min) trims at construction time already – the
+default manager keeps 5 of the 8 construction candles – and again later -/
+def cfg : MgrCfg := { ha := true, lifespan := some 240 }
 
 def ops : List (TwinOp Int) :=
   [.calculate none, .append [candle 8, candle 9], .purge (some "RSI_2_T2"), .append [candle 10],
-   .recalculate (some "SMA_2_T2"), .calculateIndex none 2, .append [candle 11, candle 12, candle 13]]
+   .recalculate (some "SMA_2_T2"), .calculateIndex none 1, .append [candle 11, candle 12, candle 13]]
 
-/-- the hypotheses of `member_standalone_tf` / `handsOverRaw_rawDefault`, decidable forms -/
+/-- the hypotheses of `member_standalone_tf`, decidable forms -/
 theorem hyps :
     members.all (fun m => m.tfName != aT.tfName || m.tfSecs == aT.tfSecs) = true ∧
-    stream.all Candle.pristineb = true ∧ trimKeepsb cfg.lifespan stream = true ∧
     (C13.othersNames "SMA_2_T2" members).all others.contains = true ∧
     treeOKb others aT.tree = true ∧ ops.all (TwinOp.okb others "SMA_2_T2") = true ∧
     readOK others "SMA_2_T2" = true ∧
     isOk (runHexital cfg none stream members ops) = true := by decide +kernel
 
 /-- the theorem applied: the Hexital run succeeds, so does the plain standalone `SMA(period=2, timeframe="T2",
-candlestick_type="HA", candles_lifespan=8 min)` over the raw stream, and the column read through the Hexital is
+candlestick_type="HA", candles_lifespan=4 min)` over the candles as given, and the column read through the Hexital is
 the standalone indicator's -/
 theorem applied : ∃ H twin, runHexital cfg none stream members ops = .ok H ∧
     (do let s ← IndState.init aT.tree { cfg with tf := some 120 } stream
         ops.foldlM (TwinOp.runInd "SMA_2_T2") s) = .ok twin ∧
     H.readingAsList "SMA_2_T2" = .ok (twin.asList (some "SMA_2_T2")) := by
-  obtain ⟨h1, h2, h3, h4, h5, h6, h7, h8⟩ := hyps
+  obtain ⟨h1, h4, h5, h6, h7, h8⟩ := hyps
   obtain ⟨H, hH⟩ := isOk_ok h8
   have hd : Hexital.dedupe members = members := by
     simp [Hexital.dedupe, members, a, aT, bT, cT, mkTop, Ind.name, dset]
@@ -852,8 +907,7 @@ theorem applied : ∃ H twin, runHexital cfg none stream members ops = .ok H ∧
       rcases this with h | h
       · exact absurd he h
       · exact h)
-    (fun _ => handsOverRaw_rawDefault cfg none _ _ stream (by decide) rfl rfl
-      (Candle.pristine_of_b _ h2) (trim_keeps_of_b _ _ h3))
+    (Writes.key_of_ne (by decide))
     (fun m hm hn k hk => by
       rw [hd] at hm
       have := List.all_eq_true.1 h4 k (C13.othersNames_spec "SMA_2_T2" members m hm hn k hk)
@@ -861,72 +915,75 @@ theorem applied : ∃ H twin, runHexital cfg none stream members ops = .ok H ∧
     (treeOK_of_b h5) (TwinOp.ok_of_okb ops h6) hH
   exact ⟨H, twin, hH, ht, hcol "SMA_2_T2" (by decide) h7⟩
 
-/-- … and it is not about empty columns or untrimmed lists: at the end the member manager holds 5 buckets
-(of 8: the lifespan has popped three), each with a reading -/
+/-- … and it is not about empty columns or untrimmed lists: the default manager keeps 5 of the 8 construction
+candles, the member manager 3 buckets of 4; at the end the member manager holds 3 buckets, each with a reading -/
 theorem applied_nontrivial :
-    (match (do let s ← IndState.init aT.tree { cfg with tf := some 120 } stream
-               ops.foldlM (TwinOp.runInd "SMA_2_T2") s) with
-     | .ok twin => (twin.asList none).map Val.isNone
-     | .error _ => []) = [false, false, false, false, false] := by decide +kernel
+    (match Manager.init cfg stream, Manager.init { cfg with tf := some 120 } stream,
+        (do let s ← IndState.init aT.tree { cfg with tf := some 120 } stream
+            ops.foldlM (TwinOp.runInd "SMA_2_T2") s) with
+     | .ok dm, .ok km, .ok twin => (dm.candles.length, km.candles.length, (twin.asList none).map Val.isNone)
+     | _, _, _ => (0, 0, [])) = (5, 3, [false, false, false]) := by decide +kernel
 
-/-- `members_rawAtAttach`, first alternative: a Hexital WITH a timeframe (`T1`), gap filling and a lifespan,
-constructed without candles and fed half-minute candles in chunks; the member `SMA_2_T2` next to `SMA_2`
-(which lives on the `T1` default manager) -/
+/-- the statement of `members_FULL` on a Hexital WITH a timeframe (`T1`), gap filling and a lifespan (5 min) that
+trims at construction time: constructed from 14 half-minute candles (7 min), fed the rest in chunks; members with
+two different timeframes (`T2`: `RSI_2_T2`, `SMA_2_T2`; `T3`: `EMA_2_T3`) next to `SMA_2` on the `T1` default manager -/
 def cfg1 : MgrCfg := { tf := some 60, fill := true, lifespan := some 300 }
 def half (k : Nat) : Candle Int := { candle k with ts := some (30 * (k : Int) + 30) }
+def init1 : List (Candle Int) := (List.range 14).map half
 def chunks : List (List (Candle Int)) :=
-  [[half 0, half 1, half 2], [], [half 3], [half 4, half 5, half 6, half 7, half 8], [half 9, half 10, half 11],
-   [half 12, half 13, half 14, half 15, half 16, half 17, half 18, half 19]]
+  [[half 14, half 15, half 16], [], [half 17], [half 18, half 19, half 20, half 21, half 22], [half 23, half 24, half 25]]
 
 def run1 : PyM (Hexital Int) := do
-  let h ← Hexital.init cfg1 (some "T1") [] [a, aT]
+  let h ← Hexital.init cfg1 (some "T1") init1 members
   let h ← h.calculate none
   chunks.foldlM (fun (h : Hexital Int) ch => h.append ch) h
 
-def twin1 : PyM (IndState Int) := do
-  let s ← IndState.init aT.tree (match aT.tfName with
-                                  | some _ => { cfg1 with tf := aT.tfSecs }
-                                  | none => cfg1) []
+/-- the standalone twin of a member, in the very words of `members_FULL` -/
+def twinOf (mem : Member Int) : PyM (IndState Int) := do
+  let s ← IndState.init mem.tree (match mem.tfName with
+                                   | some _ => { cfg1 with tf := mem.tfSecs }
+                                   | none => cfg1) init1
   let s ← s.calculate
   chunks.foldlM (fun (s : IndState Int) ch => s.append ch) s
 
-theorem hyps1 : treeOKb a.tree.allNames aT.tree = true ∧ isOk run1 = true ∧ isOk twin1 = true ∧
-    (match twin1 with
-     | .ok t => (t.asList none).map Val.isNone
-     | .error _ => []) = [false, false, false] := by decide +kernel
+def others3 : List String := bT.tree.allNames ++ a.tree.allNames ++ aT.tree.allNames
 
-theorem applied1 : ∃ h twin hi m, run1 = .ok h ∧ twin1 = .ok twin ∧
+/-- the hypotheses of `members_all` for the members `SMA_2_T2` (T2) and `EMA_2_T3` (T3), decidable forms -/
+theorem hyps1 :
+    (members.map (·.tree.name)).Nodup ∧
+    ((C13.othersNames aT.tree.name members).all others.contains = true ∧ treeOKb others aT.tree = true ∧
+     members.all (fun m => m.tfName != aT.tfName || m.tfSecs == aT.tfSecs) = true) ∧
+    ((C13.othersNames cT.tree.name members).all others3.contains = true ∧ treeOKb others3 cT.tree = true ∧
+     members.all (fun m => m.tfName != cT.tfName || m.tfSecs == cT.tfSecs) = true) ∧
+    isOk run1 = true ∧ isOk (twinOf aT) = true ∧ isOk (twinOf cT) = true := by decide +kernel
+
+/-- the lifespan trims at construction time (the `T1` default manager keeps 6 of its 7 buckets; the member managers
+hold 3 `T2` / 2 `T3` buckets), and at the end the twins have readings: on every `T2` bucket, on the last `T3` bucket -/
+theorem hyps1_nontrivial :
+    (match Manager.init cfg1 init1, Manager.init { cfg1 with lifespan := none } init1,
+        Manager.init { cfg1 with tf := some 120 } init1, Manager.init { cfg1 with tf := some 180 } init1,
+        twinOf aT, twinOf cT with
+     | .ok dm, .ok dm0, .ok km2, .ok km3, .ok t2, .ok t3 =>
+       (dm.candles.length, dm0.candles.length, km2.candles.length, km3.candles.length,
+        (t2.asList none).map Val.isNone, (t3.asList none).map Val.isNone)
+     | _, _, _, _, _, _ => (0, 0, 0, 0, [], [])) = (6, 7, 3, 2, [false, false, false], [true, false]) := by
+  decide +kernel
+
+theorem applied1 : ∃ h twin hi m, run1 = .ok h ∧ twinOf aT = .ok twin ∧
     dlookup "SMA_2_T2" h.indicators = some hi ∧ dlookup hi.mgrKey h.managers = some m ∧
     m.candles.map Candle.core = twin.mgr.candles.map Candle.core ∧
     storedUnder "SMA_2_T2" m.candles = storedUnder "SMA_2_T2" twin.mgr.candles := by
-  obtain ⟨h1, h2, h3, _⟩ := hyps1
-  obtain ⟨h, hh⟩ := isOk_ok h2
-  obtain ⟨twin, ht⟩ := isOk_ok h3
-  obtain ⟨hi, m, e1, e2, e3, e4⟩ := members_rawAtAttach cfg1 (some "T1") [a, aT] [] chunks aT h twin a.tree.allNames
-    (by simp)
-    (by
-      intro m' hm' hn
-      rcases List.mem_cons.1 hm' with e | e
-      · subst e; exact absurd hn (by decide)
-      · simpa using e)
-    (by
-      intro m hm hn k hk
-      rcases List.mem_cons.1 hm with e | e
-      · subst e; exact hk
-      · have : m = aT := by simpa using e
-        subst this; exact absurd rfl hn)
-    (treeOK_of_b h1)
-    (by
-      intro m hm he
-      rcases List.mem_cons.1 hm with e | e
-      · subst e; exact absurd he (by decide)
-      · have : m = aT := by simpa using e
-        subst this; rfl)
-    (by decide) (.empty rfl) hh ht
+  obtain ⟨hnd, ⟨h1, h2, h3⟩, _, h7, h8, _⟩ := hyps1
+  obtain ⟨h, hh⟩ := isOk_ok h7
+  obtain ⟨twin, ht⟩ := isOk_ok h8
+  have hmem : aT ∈ members := by simp [members]
+  obtain ⟨hi, m, e1, e2, e3, e4⟩ := members_all cfg1 (some "T1") members init1 chunks aT h twin others
+    hmem (Member.uniq_of_nodup members aT hmem hnd) (Member.others_of_b members aT others h1) (treeOK_of_b h2)
+    (Member.secs_of_b members aT h3) (by decide) hh ht
   exact ⟨h, twin, hi, m, hh, ht, e1, e2, e3, e4 "SMA_2_T2" (by decide)⟩
 
-/-- (c): the member's timeframe is the Hexital's own (`T2`); the member manager re-collapses the default
-manager's buckets -/
+/-- Part B, (c): the member's timeframe is the Hexital's own (`T2`); a member manager created late re-collapses the
+default manager's buckets -/
 theorem rawBk_stream : RawBk stream :=
   ⟨by simp [stream, candle], by simp [stream, candle], by decide⟩
 
@@ -946,4 +1003,12 @@ example : HandsOverRaw { tf := some 120, ha := true } (some "T2") (some "T2") (s
 
 end TwinTfEx
 
+
 end Hex
+
+#print axioms Hex.member_standalone_tf
+#print axioms Hex.members_all_key
+#print axioms Hex.members_all
+#print axioms Hex.members_attachOK
+#print axioms Hex.TwinTfEx.applied
+#print axioms Hex.TwinTfEx.applied1
